@@ -23,6 +23,7 @@ def writes (x : VarId) : Expr → Bool
   | .bin _ a b | .cmp _ a b | .and a b | .or a b | .seq a b | .ifThen a b => writes x a || writes x b
   | .assign y e | .compound _ y e => y == x || writes x e
   | .ite c t e => writes x c || writes x t || writes x e
+  | .chain3 _ _ a b c => writes x a || writes x b || writes x c
 
 def outLocal : Expr → Option VarId
   | .var x => some x
@@ -46,6 +47,10 @@ def safe (E : List VarId) (fx : Option VarId) : Expr → Bool
   | .var y => !E.contains y
   | .un _ a => safe E none a
   | .bin _ a b | .cmp _ a b => safe E none a && safe E none b && lateOk E a b
+  | .chain3 _ _ a b c =>
+    -- the first comparison's result is written to the comparison register (= the fixed result
+    -- register, if any) before `c` is evaluated; `b`'s register is read again after `c`
+    safe E none a && safe E none b && lateOk E a b && safe (addOpt fx E) none c && lateOk (addOpt fx E) b c
   | .and a b | .or a b => safe E fx a && safe (addOpt fx E) fx b
   | .assign y e => safe E (some y) e
   | .compound _ y e => safe E none e && !E.contains y && !writes y e
@@ -189,6 +194,34 @@ theorem eval_not_writes (x : VarId) : ∀ (e : Expr) (ρ ρ' : Env S) (v : S.V),
       split at h
       · rw [iht ρ1 ρ' v hw.2 h, ihc ρ ρ1 vc hw.1 hc]
       · cases h; exact ihc ρ ρ' vc hw.1 hc
+  | chain3 op1 op2 a b c iha ihb ihc =>
+    intro ρ ρ' v hw h
+    simp only [writes, Bool.or_eq_false_iff] at hw
+    simp only [eval] at h
+    cases ha : eval S a ρ with
+    | none => simp [ha] at h
+    | some p =>
+      obtain ⟨va, ρ1⟩ := p
+      simp only [ha] at h
+      cases hb : eval S b ρ1 with
+      | none => simp [hb] at h
+      | some q =>
+        obtain ⟨vb, ρ2⟩ := q
+        simp only [hb] at h
+        cases h1 : S.binop op1 va vb with
+        | none => simp [h1] at h
+        | some r1 =>
+          simp only [h1] at h
+          split at h
+          · cases hc : eval S c ρ2 with
+            | none => simp [hc] at h
+            | some t =>
+              obtain ⟨vc, ρ3⟩ := t
+              simp only [hc, Option.map_eq_some_iff] at h
+              obtain ⟨_, _, h⟩ := h; cases h
+              rw [ihc ρ2 ρ' vc hw.2 hc, ihb ρ1 ρ2 vb hw.1.2 hb, iha ρ ρ1 va hw.1.1 ha]
+          · cases h
+            rw [ihb ρ1 ρ' vb hw.1.2 hb, iha ρ ρ1 va hw.1.1 ha]
 
 /-- after evaluating an expression whose `Any` result is a local's own register, that local holds
 the expression's value -/
